@@ -89,6 +89,7 @@ class MemStorage(Storage):
     # When STAGE is a list (a virtual child process is executing, see vmp.py) mutations are
     # recorded there instead of being applied; they are applied when the explorer commits them.
     STAGE = None
+    READ_HOOK = None      # E3: called when a stored result is read (lets the virtual OS see loads done by the parent)
 
     @staticmethod
     def apply_staged(ops):
@@ -118,6 +119,12 @@ class MemStorage(Storage):
         if 'r' in mode and '+' not in mode:
             if filename not in files:
                 raise FileNotFoundError(f'{key}/{filename}')
+            if filename != 'metadata.json':
+                # a stored result is being read (wherever: coordinator, worker, helper code)
+                U.WORLD.rec('result-read', key, U.WORLD.child)
+                hook = MemStorage.READ_HOOK
+                if hook is not None:
+                    hook(key)
             data = files[filename]
             return io.BytesIO(data) if binary else io.StringIO(data.decode('utf-8'))
         if 'w' in mode:
